@@ -11,18 +11,24 @@ prop = Prop(
               "points around connector calls) against an independent per-location capacity accounting; plus a bounded-exhaustive "
               "enumeration of all protocol-conforming histories of a 2-job / 1-location subspace",
     rule=(
-        "histories: 1..3 deployments x 1..3 locations (hardware with 1..2 mount points, or slots), 40% stacked wrappers "
-        "(outer hardware or slots, inner hardware; one inner location per outer one, or one shared by all), bindings of 1..3 "
-        "targets with locations 1..2, <= 8 jobs with dyadic requirements, <= 40 operations (schedule started as a task, notify "
-        "following the callers' protocol, settle) and a drawn drain order. Non-trivial = >= 2 jobs were granted, >= 1 request "
-        "was found waiting at a quiescent point and some location hosted >= 1 fireable/running job while it waited (measured); "
-        "distinct by the whole case. exhaustive tier: every protocol-conforming history of <= N operations over 2 jobs on one "
-        "location (slots 1, slots 2, hardware); non-trivial = a request waited."
+        "histories: 1..3 deployments x 1..3 locations (hardware with 1..2 mount points, or slots 1..3), 40% of the deployments "
+        "stacked (outer hardware or slots, inner hardware; one inner location per outer one, or one shared by all as "
+        "DockerComposeConnector builds them; binds none / identity / moved / root), bindings of 1..3 targets with locations 1..2 "
+        "and services, <= 8 jobs with dyadic requirements (or none) re-scheduled up to twice after ROLLBACK, 4..40 operations "
+        "(schedule started as a task, notify following the callers' protocol, recovery step, settle), a chaos schedule and a "
+        "drawn drain order. Non-trivial = >= 2 requests were granted, >= 1 request was found waiting at a quiescent point and "
+        "some location hosted a fireable/running job (all measured); distinct by the whole case. exhaustive-2jobs: every "
+        "protocol-conforming history of <= 5 (quick) / 6 (thorough) operations, each followed by quiescence, over 2 jobs on one "
+        "location in 3 configurations (slots=1; hardware where the jobs exclude each other; hardware where they fit together "
+        "until retained usage fills the mount); non-trivial = a request waited."
     ),
     level_text="Random search plus a small exhaustive subspace; the invariant is evaluated from public scheduler state "
-               "(job_allocations) and the harness's own requirement records after every scheduler call and at every quiescent point.",
+               "(job_allocations) and the harness's own requirement records at the completion of every scheduler call and at "
+               "every quiescent point.",
     level_note="Interleavings are those expressible as delays at connector calls; location names are unique across deployments; "
-               "locations of one deployment share the mount-point layout; inner locations of stacked deployments have hardware.",
+               "locations of one deployment share the mount-point layout; inner locations of stacked deployments have hardware; "
+               "jobs use at most the storage they requested. Known finding: a 2-location target whose outer locations share one "
+               "inner location over-allocates the inner storage (kind C10:over-allocation:shared-inner).",
     assumptions=[
         "notification histories follow the callers' protocol (DESIGN R1c)",
         "requirements and capacities are multiples of 1/8 (exact float arithmetic)",
@@ -38,9 +44,8 @@ def classify(h: sm.History, rec, pid: str) -> None:
     kinds = {d["kind"] for d in w["deps"]}
     for k in sorted(kinds):
         rec.label(f"capacity={k}")
-    for d in w["deps"]:
-        if d["stack"]:
-            rec.label(f"stacked:{d['stack']['shape']}:outer-{d['kind']}")
+    for lab in sorted({f"stacked:{d['stack']['shape']}:outer-{d['kind']}" for d in w["deps"] if d["stack"]}):
+        rec.label(lab)
     if s["stacked_grants"]:
         rec.label("grant-on-stacked")
     if s["multi_loc"]:
@@ -62,12 +67,12 @@ def classify(h: sm.History, rec, pid: str) -> None:
     if h.chaos.s:
         rec.label("non-default-schedule")
     if h.aborted:
-        rec.label("void-after-release-exception(C11-finding)")
+        rec.label("void-after-over-allocation(C10-finding)" if s.get("void_over_allocation") else "void-after-release-exception(C11-finding)")
     if not w.get("predeclare", True):
         rec.label("mount-points-resolved-remotely")
 
 
-@prop.given("histories", sm.history_case(), quick=3000, thorough=100000)
+@prop.given("histories", sm.history_case(), quick=4000, thorough=150000)
 async def check_histories(case, rec):
     h = await sm.run_history(case, "C10")
     classify(h, rec, "C10")
